@@ -105,6 +105,13 @@ Inductive vrel : value -> value -> Prop :=
     iSafeFormatter i = true -> iFormatter i = false -> iGoStringer i = false -> iStringer i = false -> iError i = false ->
     Forall2 actrel sc1 sc2 -> vrel r1 r2 ->
     vrel (VUser t i false r1 sc1) (VUser t i false r2 sc2)
+(* a SafeMessager: the (declared safe) message is the same on both sides; the rest may differ *)
+| vr_smuser t i r1 r2 x rest1 rest2 :
+    treg t = false -> tsv t = false ->
+    iSafeMessager i = true -> iSafeFormatter i = false -> iFormatter i = false ->
+    iGoStringer i = false -> iStringer i = false -> iError i = false ->
+    vrel r1 r2 ->
+    vrel (VUser t i false r1 (ARet x :: rest1)) (VUser t i false r2 (ARet x :: rest2))
 (* operands: a tree, Unsafe(tree), Safe(leaf) *)
 with arel : value -> value -> Prop :=
 | ar_v x y : vrel x y -> arel x y
@@ -974,6 +981,126 @@ Section Rec.
         apply Hk; auto.
   Qed.
 
+  (* defer p.startSafeOverride().restore() around a body that records its operand first *)
+  Lemma bracket_safe_run {A} (b : M A) s :
+    bracket start_safe_ovr b s =
+    let s0 := if ovr_eqb (povr s) NoOvr then set_ovr (set_pl s (lset (pl s) (OMode MSafe))) OvrSafe else s in
+    let '(o, s2) := b s0 in (o, set_ovr (set_pl s2 (lset (pl s2) (OMode (lmode (pl s))))) (povr s)).
+  Proof.
+    unfold bracket, start_safe_ovr, bind, get_mode, Printer.get.
+    destruct (ovr_eqb (povr s) NoOvr).
+    - rewrite setmode_state. unfold modify, ret. cbn iota beta zeta.
+      destruct (b _) as [o s2]. rewrite restore_state. reflexivity.
+    - unfold ret. cbn iota beta zeta. destruct (b s) as [o s2]. rewrite restore_state. reflexivity.
+  Qed.
+
+  Lemma NB_set_ovr s1 s2 o : NB s1 s2 -> (o = OvrSafe -> lmode (pl s1) <> MUnsafe) ->
+    NB (set_ovr s1 o) (set_ovr s2 o).
+  Proof. intros [] H2. destruct s1, s2; constructor; cbn in *; auto. Qed.
+
+  Lemma NB_set_pl_ovr s1 s2 l1 l2 o : NB s1 s2 -> lmode l1 = lmode l2 -> (o = OvrSafe -> lmode l1 <> MUnsafe) ->
+    NB (set_ovr (set_pl s1 l1) o) (set_ovr (set_pl s2 l2) o).
+  Proof. intros [] H0 H2. destruct s1, s2; constructor; cbn in *; auto. Qed.
+
+  Lemma dsim_same_writes m os m' : m <> MUnsafe -> forallb is_wr os = true ->
+    dsim m (os ++ [OMode m']) (os ++ [OMode m']) m'.
+  Proof.
+    intros Hm. induction os as [|o r IH]; intros Hw; cbn [app]; [apply ds_mode; constructor|].
+    cbn [forallb] in Hw. apply andb_prop in Hw. destruct Hw. apply ds_same; auto.
+  Qed.
+
+  Lemma set_back s l1 l2 l3 : povr s = NoOvr ->
+    set_ovr (set_pl (set_pl (set_ovr (set_pl s l1) OvrSafe) l2) l3) (povr s) = set_pl s l3.
+  Proof. intros H. destruct s; cbn in *. subst. reflexivity. Qed.
+
+  (* a safe emitter with no override active: SetMode(safe), the writes, SetMode(previous) *)
+  Lemma safe_wr_run ws s : povr s = NoOvr ->
+    bracket start_safe_ovr (wr ws) s =
+    (ROk tt, set_pl s (lset (lwrites (lset (pl s) (OMode MSafe)) (ops_of ws)) (OMode (lmode (pl s))))).
+  Proof.
+    intros Hn. rewrite bracket_safe_run. assert (ovr_eqb (povr s) NoOvr = true) as -> by (rewrite Hn; reflexivity).
+    cbv zeta. rewrite wr_state.
+    assert (forall x l o, pl (set_ovr (set_pl x l) o) = l) as Hp by (intros [] ? ?; reflexivity).
+    rewrite !pl_set_pl, Hp. apply f_equal. apply set_back. exact Hn.
+  Qed.
+
+  Lemma safe_ubody_run g s : povr s = NoOvr ->
+    bracket start_safe_ovr (ubody g) s =
+    match g (pf s) with
+    | Some w => (ROk tt, set_pl s (lset (lset (lwrites (lset (pl s) (OMode MSafe)) (ops_of w)) (OMode MSafe)) (OMode (lmode (pl s)))))
+    | None => (RMiss 0, set_pl s (lset (lset (lset (pl s) (OMode MSafe)) (OMode MSafe)) (OMode (lmode (pl s)))))
+    end.
+  Proof.
+    intros Hn. rewrite bracket_safe_run. assert (ovr_eqb (povr s) NoOvr = true) as -> by (rewrite Hn; reflexivity).
+    cbv zeta. rewrite ubody_run.
+    assert (forall x l o, pl (set_ovr (set_pl x l) o) = l /\ pf (set_ovr (set_pl x l) o) = pf x /\ povr (set_ovr (set_pl x l) o) = o) as Hp by (intros [] ? ?; auto).
+    destruct (Hp s (lset (pl s) (OMode MSafe)) OvrSafe) as (-> & -> & ->). cbn [ovr_eqb]. cbv zeta. rewrite lmode_setmode.
+    destruct (g (pf s)); (rewrite !pl_set_pl; apply f_equal; apply set_back; exact Hn).
+  Qed.
+
+  (* under an unsafe override start_safe_ovr does nothing: the body, then SetMode(previous) *)
+  Lemma Jbracket_safe_uo (b1 b2 : M unit) : kovr b1 -> J any b1 b2 ->
+    JS (fun s1 _ => povr s1 = OvrUnsafe) any (bracket start_safe_ovr b1) (bracket start_safe_ovr b2).
+  Proof.
+    intros Hk Hb s1 s2 N S Ho. rewrite !bracket_safe_run. rewrite <- (nb_ovr _ _ N), Ho. cbn [ovr_eqb]. cbv zeta.
+    specialize (Hb s1 s2 N S Logic.I). pose proof (Hk s1) as Ek.
+    destruct (b1 s1) as [[u1|?| |?] x], (b2 s2) as [[u2|?| |?] y]; try (exact Logic.I || contradiction || (exfalso; assumption)).
+    destruct Hb as (_ & Nx & Sx & Gx). cbn [snd] in Ek.
+    assert (forall s l o, pl (set_ovr (set_pl s l) o) = l) as Hp by (intros [] ? ?; reflexivity).
+    rewrite <- (nb_mode _ _ N).
+    refine (conj Logic.I (conj _ (conj _ _))).
+    - apply NB_set_pl_ovr; [exact Nx | now rewrite !lmode_setmode | intros X; discriminate].
+    - intros X. assert (forall s l o, povr (set_ovr (set_pl s l) o) = o) as Hq by (intros [] ? ?; reflexivity). rewrite Hq in X. discriminate.
+    - eapply seg_trans; [exact Gx|].
+      exists [OMode (lmode (pl s1))], [OMode (lmode (pl s1))]. rewrite !Hp, !rlog_lset. split; [reflexivity|]. split; [reflexivity|].
+      cbn [rev app]. rewrite lmode_setmode. apply ds_mode. constructor.
+  Qed.
+
+  Lemma povr_cases s : povr s <> OvrSafe -> povr s = NoOvr \/ povr s = OvrUnsafe.
+  Proof. destruct (povr s); auto. congruence. Qed.
+
+  Lemma Jsafe_wr ws : JS (HS False) any (bracket start_safe_ovr (wr ws)) (bracket start_safe_ovr (wr ws)).
+  Proof.
+    intros s1 s2 N S Hs. assert (povr s1 <> OvrSafe) as Hns by (intros X; exact (Hs X)).
+    destruct (povr_cases _ Hns) as [Hn | Hu].
+    - assert (povr s2 = NoOvr) as Hn2 by (rewrite <- (nb_ovr _ _ N); exact Hn).
+      rewrite (safe_wr_run ws s1 Hn), (safe_wr_run ws s2 Hn2), <- (nb_mode _ _ N).
+      destruct (lwrites_log (ops_of ws) (lset (pl s1) (OMode MSafe)) (ops_of_wr ws)) as [L1 M1].
+      destruct (lwrites_log (ops_of ws) (lset (pl s2) (OMode MSafe)) (ops_of_wr ws)) as [L2 M2].
+      refine (conj Logic.I (conj _ (conj _ _))).
+      + apply NB_set_pl; [exact N | now rewrite !lmode_setmode | intros X; congruence].
+      + intros X. destruct s1; cbn in *. congruence.
+      + exists (OMode (lmode (pl s1)) :: rev (ops_of ws) ++ [OMode MSafe]), (OMode (lmode (pl s1)) :: rev (ops_of ws) ++ [OMode MSafe]).
+        rewrite !pl_set_pl, !rlog_lset, L1, L2, !rlog_lset.
+        split; [cbn [app]; now rewrite <- app_assoc|]. split; [cbn [app]; now rewrite <- app_assoc|].
+        rewrite lmode_setmode. cbn [rev]. rewrite !rev_app_distr, !rev_involutive. cbn [rev app].
+        apply ds_mode. apply dsim_same_writes; [discriminate | apply ops_of_wr].
+    - exact (Jbracket_safe_uo (wr ws) (wr ws) (kovr_keeps _ (keeps_wr ws)) (J_wr ws) s1 s2 N S Hu).
+  Qed.
+
+  Lemma Jsafe_ubody g : JS (HS False) any (bracket start_safe_ovr (ubody g)) (bracket start_safe_ovr (ubody g)).
+  Proof.
+    intros s1 s2 N S Hs. assert (povr s1 <> OvrSafe) as Hns by (intros X; exact (Hs X)).
+    destruct (povr_cases _ Hns) as [Hn | Hu].
+    - assert (povr s2 = NoOvr) as Hn2 by (rewrite <- (nb_ovr _ _ N); exact Hn).
+      rewrite (safe_ubody_run g s1 Hn), (safe_ubody_run g s2 Hn2), <- (nb_mode _ _ N), <- (nb_pf _ _ N).
+      destruct (g (pf s1)) as [w|]; [|exact Logic.I].
+      destruct (lwrites_log (ops_of w) (lset (pl s1) (OMode MSafe)) (ops_of_wr w)) as [L1 M1].
+      destruct (lwrites_log (ops_of w) (lset (pl s2) (OMode MSafe)) (ops_of_wr w)) as [L2 M2].
+      refine (conj Logic.I (conj _ (conj _ _))).
+      + apply NB_set_pl; [exact N | now rewrite !lmode_setmode | intros X; congruence].
+      + intros X. destruct s1; cbn in *. congruence.
+      + exists (OMode (lmode (pl s1)) :: OMode MSafe :: rev (ops_of w) ++ [OMode MSafe]), (OMode (lmode (pl s1)) :: OMode MSafe :: rev (ops_of w) ++ [OMode MSafe]).
+        rewrite !pl_set_pl, !rlog_lset, L1, L2, !rlog_lset.
+        split; [cbn [app]; now rewrite <- app_assoc|]. split; [cbn [app]; now rewrite <- app_assoc|].
+        rewrite lmode_setmode. cbn [rev]. rewrite !rev_app_distr, !rev_involutive. cbn [rev app]. rewrite <- !app_assoc. cbn [app].
+        apply ds_mode.
+        replace (ops_of w ++ [OMode MSafe; OMode (lmode (pl s1))]) with ((ops_of w ++ [OMode MSafe]) ++ [OMode (lmode (pl s1))]) by (rewrite <- app_assoc; reflexivity).
+        eapply dsim_app; [apply dsim_same_writes; [discriminate | apply ops_of_wr]|]. apply ds_mode. constructor.
+    - refine (Jbracket_safe_uo (ubody g) (ubody g) _ (ubody_refl g) s1 s2 N S Hu).
+      apply kovr_keeps. unfold ubody. apply keeps_bracket. apply start_ok_unsafe.
+  Qed.
+
   (* ---------- handleMethods on an operand without methods ---------- *)
   Lemma J_clear_wrap : J any (modify (fun s => set_wrapErrs (set_wrappedErr s None) false)) (modify (fun s => set_wrapErrs (set_wrappedErr s None) false)).
   Proof. apply J_modify; [nbmod | intros []; reflexivity | intros []; reflexivity]. Qed.
@@ -1146,6 +1273,56 @@ Section Rec.
     intros ? ? Hx. exact Hx.
   Qed.
 
+  (* handleMethods on a SafeMessager *)
+  Definition sm_call (a : value) (x : bytes) (verb : Z) : M bool :=
+    catch_panic rec a verb "SafeMessager" (bracket start_safe_ovr (fmtString rec env x verb)) ;;; ret true.
+
+  Lemma handleMethods_sm_run verb s t i r x rest :
+    parg s = Some (VUser t i false r (ARet x :: rest)) -> wrapErrs s = false ->
+    iSafeMessager i = true -> iSafeFormatter i = false -> iFormatter i = false ->
+    iGoStringer i = false -> iStringer i = false -> iError i = false ->
+    handleMethods rec env verb s =
+    if erroring s then (ROk false, s)
+    else if verb =? 119 then hm_bad verb s
+    else if negb (ovr_eqb (povr s) OvrUnsafe) && isv verb "vsxXq" then sm_call (VUser t i false r (ARet x :: rest)) x verb s
+    else (ROk false, s).
+  Proof.
+    intros Ea Hw F1 F2 F3 F4 F5 F6. unfold handleMethods, bind at 1, Printer.get. cbn iota beta.
+    destruct (erroring s); [reflexivity|]. rewrite Ea, Hw. cbn [negb orb]. rewrite Bool.orb_true_r, Bool.andb_true_r.
+    destruct (verb =? 119); [reflexivity|].
+    unfold bind at 1, ret at 1. cbn iota beta.
+    rewrite F1, F2, F3, F4, F5, F6.
+    assert (forall s0, (f <- getf ;; (if sharpV (fl f) then ret false else if isv verb "vsxXq" then ret false else ret false)) s0 = (ROk false, s0)) as Hstd.
+    { intros s0. unfold bind, getf. cbn iota beta. destruct (sharpV (fl (pf s0))); [reflexivity|]. destruct (isv verb "vsxXq"); reflexivity. }
+    destruct (negb (ovr_eqb (povr s) OvrUnsafe)); cbn [andb]; [|apply Hstd].
+    destruct (isv verb "vsxXq") eqn:Ev; [|apply Hstd].
+    unfold sm_call. apply bind_cong_l. apply catch_panic_ext. intros s0. apply bracket_ext. intros s1. reflexivity.
+  Qed.
+
+  Lemma fmtString_ubody x verb : isv verb "vsxXq" = true ->
+    exists g, forall s, fmtString rec env x verb s = ubody g s.
+  Proof.
+    intros Hv. unfold fmtString.
+    destruct (verb =? 118) eqn:E1.
+    { exists (fun f => if sharpV (fl f) then fmt_q (orc env) f x else Some (fmt_s f x)). intros s.
+      apply bracket_ext. intros s0. unfold bind, getf. cbn iota beta. destruct (sharpV (fl (pf s0))); reflexivity. }
+    destruct (verb =? 115) eqn:E2; [exists (fun f => Some (fmt_s f x)); reflexivity|].
+    destruct (verb =? 120) eqn:E3; [exists (fun f => Some (fmt_sbx f x false)); reflexivity|].
+    destruct (verb =? 88) eqn:E4; [exists (fun f => Some (fmt_sbx f x true)); reflexivity|].
+    destruct (verb =? 113) eqn:E5; [exists (fun f => fmt_q (orc env) f x); reflexivity|].
+    exfalso. unfold isv in Hv. apply existsb_exists in Hv. destruct Hv as (c & Hc & E). apply Z.eqb_eq in E. subst verb.
+    cbn in Hc. repeat (destruct Hc as [<- | Hc]; [cbn in *; discriminate|]). exact Hc.
+  Qed.
+
+  Lemma Jsm_call a1 a2 x verb : isv verb "vsxXq" = true -> JS (HS False) eq (sm_call a1 x verb) (sm_call a2 x verb).
+  Proof.
+    intros Hv. unfold sm_call. eapply JS_bind; [|intros; now apply J_ret]. apply Jcatch_panic.
+    destruct (fmtString_ubody x verb Hv) as (g & Hg).
+    intros s1 s2 N S Hs.
+    rewrite (bracket_ext start_safe_ovr (fmtString rec env x verb) (ubody g) Hg s1), (bracket_ext start_safe_ovr (fmtString rec env x verb) (ubody g) Hg s2).
+    now apply Jsafe_ubody.
+  Qed.
+
   Lemma vrel_isuser v1 v2 : vrel v1 v2 -> isuser v1 = isuser v2.
   Proof. intros H. inversion H; subst; try reflexivity. destruct H0 as (L1 & L2 & _). destruct v1, v2; try discriminate; reflexivity. Qed.
 
@@ -1187,6 +1364,14 @@ Section Rec.
           destruct (erroring s1); [refine (conj eq_refl (conj N (conj S _))); apply seg_refl|].
           destruct (verb =? 119); [apply J_hm_bad; auto|].
           destruct (negb (ovr_eqb (povr s1) OvrUnsafe)); [apply Jscript_call; auto | refine (conj eq_refl (conj N (conj S _))); apply seg_refl].
+        * (* SafeMessage *)
+          rewrite (handleMethods_sm_run verb s1 _ _ _ _ _ E1 (nb_nw _ _ N)) by assumption.
+          rewrite (handleMethods_sm_run verb s2 _ _ _ _ _ E2 Hw2) by assumption.
+          rewrite <- (nb_err _ _ N), <- (nb_ovr _ _ N).
+          destruct (erroring s1); [refine (conj eq_refl (conj N (conj S _))); apply seg_refl|].
+          destruct (verb =? 119); [apply J_hm_bad; auto|].
+          destruct (negb (ovr_eqb (povr s1) OvrUnsafe)); cbn [andb]; [|refine (conj eq_refl (conj N (conj S _))); apply seg_refl].
+          destruct (isv verb "vsxXq") eqn:Ev; [apply Jsm_call; auto | refine (conj eq_refl (conj N (conj S _))); apply seg_refl].
       + assert (isuser a2 = false) as U2 by (rewrite <- (vrel_isuser _ _ Ha); exact U1).
         destruct (vrel_shape _ _ Ha) as [Sh1 Sh2].
         rewrite (handleMethods_run verb s1), (handleMethods_run verb s2), <- (nb_err _ _ N) by (rewrite ?E1, ?E2; auto).
@@ -1391,6 +1576,7 @@ Section Rec.
     - discriminate.
     - discriminate.
     - discriminate.
+    - discriminate.
   Qed.
 
   (* a user value no method took: reflection prints its representation *)
@@ -1398,9 +1584,9 @@ Section Rec.
     JS (HS (v1 = v2 /\ lfs v1 = true)) any (print_kind fuel rec env v1 verb depth ci) (print_kind fuel rec env v2 verb depth ci).
   Proof.
     induction fuel as [|k IHf]; intros v1 v2 verb depth ci Hv; (destruct (isuser v1) eqn:U; [|now apply Jprint_kind_nu]).
-    - inversion Hv; subst; try discriminate; [destruct H as (L1 & _); destruct v1; discriminate| | |];
+    - inversion Hv; subst; try discriminate; [destruct H as (L1 & _); destruct v1; discriminate| | | |];
         cbn [print_kind]; intros ? ? _ _ _; exact Logic.I.
-    - inversion Hv; subst; try discriminate; [destruct H as (L1 & _); destruct v1; discriminate| | |];
+    - inversion Hv; subst; try discriminate; [destruct H as (L1 & _); destruct v1; discriminate| | | |];
         cbn [print_kind]; (eapply JS_weaken; [|apply IHf; eassumption]); intros ? ? Hx Ho; destruct (Hx Ho) as [_ Lx]; discriminate.
   Qed.
 
@@ -1558,27 +1744,6 @@ Section Rec.
     destruct R as (_ & Nx & Sx & Gx). refine (conj Logic.I (conj Nx (conj Sx _))).
     apply (seg_same_pl s1 a1 s2 a2); [unfold a1; destruct s1; reflexivity | unfold a2; destruct s2; reflexivity | exact Gx].
   Qed.
-
-  (* defer p.startSafeOverride().restore() around a body that records its operand first *)
-  Lemma bracket_safe_run {A} (b : M A) s :
-    bracket start_safe_ovr b s =
-    let s0 := if ovr_eqb (povr s) NoOvr then set_ovr (set_pl s (lset (pl s) (OMode MSafe))) OvrSafe else s in
-    let '(o, s2) := b s0 in (o, set_ovr (set_pl s2 (lset (pl s2) (OMode (lmode (pl s))))) (povr s)).
-  Proof.
-    unfold bracket, start_safe_ovr, bind, get_mode, Printer.get.
-    destruct (ovr_eqb (povr s) NoOvr).
-    - rewrite setmode_state. unfold modify, ret. cbn iota beta zeta.
-      destruct (b _) as [o s2]. rewrite restore_state. reflexivity.
-    - unfold ret. cbn iota beta zeta. destruct (b s) as [o s2]. rewrite restore_state. reflexivity.
-  Qed.
-
-  Lemma NB_set_ovr s1 s2 o : NB s1 s2 -> (o = OvrSafe -> lmode (pl s1) <> MUnsafe) ->
-    NB (set_ovr s1 o) (set_ovr s2 o).
-  Proof. intros [] H2. destruct s1, s2; constructor; cbn in *; auto. Qed.
-
-  Lemma NB_set_pl_ovr s1 s2 l1 l2 o : NB s1 s2 -> lmode l1 = lmode l2 -> (o = OvrSafe -> lmode l1 <> MUnsafe) ->
-    NB (set_ovr (set_pl s1 l1) o) (set_ovr (set_pl s2 l2) o).
-  Proof. intros [] H0 H2. destruct s1, s2; constructor; cbn in *; auto. Qed.
 
   Lemma Jbracket_safe (b1 b2 : M unit) : kovr b1 ->
     JS0 (fun _ _ => True) any b1 b2 -> JS0 (fun _ _ => True) any (bracket start_safe_ovr b1) (bracket start_safe_ovr b2).
@@ -1830,105 +1995,6 @@ Section Rec.
   Qed.
 
   (* ---------- scripts: the calls a Format / SafeFormat method makes on the printer ---------- *)
-  Lemma dsim_same_writes m os m' : m <> MUnsafe -> forallb is_wr os = true ->
-    dsim m (os ++ [OMode m']) (os ++ [OMode m']) m'.
-  Proof.
-    intros Hm. induction os as [|o r IH]; intros Hw; cbn [app]; [apply ds_mode; constructor|].
-    cbn [forallb] in Hw. apply andb_prop in Hw. destruct Hw. apply ds_same; auto.
-  Qed.
-
-  Lemma set_back s l1 l2 l3 : povr s = NoOvr ->
-    set_ovr (set_pl (set_pl (set_ovr (set_pl s l1) OvrSafe) l2) l3) (povr s) = set_pl s l3.
-  Proof. intros H. destruct s; cbn in *. subst. reflexivity. Qed.
-
-  (* a safe emitter with no override active: SetMode(safe), the writes, SetMode(previous) *)
-  Lemma safe_wr_run ws s : povr s = NoOvr ->
-    bracket start_safe_ovr (wr ws) s =
-    (ROk tt, set_pl s (lset (lwrites (lset (pl s) (OMode MSafe)) (ops_of ws)) (OMode (lmode (pl s))))).
-  Proof.
-    intros Hn. rewrite bracket_safe_run. assert (ovr_eqb (povr s) NoOvr = true) as -> by (rewrite Hn; reflexivity).
-    cbv zeta. rewrite wr_state.
-    assert (forall x l o, pl (set_ovr (set_pl x l) o) = l) as Hp by (intros [] ? ?; reflexivity).
-    rewrite !pl_set_pl, Hp. apply f_equal. apply set_back. exact Hn.
-  Qed.
-
-  Lemma safe_ubody_run g s : povr s = NoOvr ->
-    bracket start_safe_ovr (ubody g) s =
-    match g (pf s) with
-    | Some w => (ROk tt, set_pl s (lset (lset (lwrites (lset (pl s) (OMode MSafe)) (ops_of w)) (OMode MSafe)) (OMode (lmode (pl s)))))
-    | None => (RMiss 0, set_pl s (lset (lset (lset (pl s) (OMode MSafe)) (OMode MSafe)) (OMode (lmode (pl s)))))
-    end.
-  Proof.
-    intros Hn. rewrite bracket_safe_run. assert (ovr_eqb (povr s) NoOvr = true) as -> by (rewrite Hn; reflexivity).
-    cbv zeta. rewrite ubody_run.
-    assert (forall x l o, pl (set_ovr (set_pl x l) o) = l /\ pf (set_ovr (set_pl x l) o) = pf x /\ povr (set_ovr (set_pl x l) o) = o) as Hp by (intros [] ? ?; auto).
-    destruct (Hp s (lset (pl s) (OMode MSafe)) OvrSafe) as (-> & -> & ->). cbn [ovr_eqb]. cbv zeta. rewrite lmode_setmode.
-    destruct (g (pf s)); (rewrite !pl_set_pl; apply f_equal; apply set_back; exact Hn).
-  Qed.
-
-  (* under an unsafe override start_safe_ovr does nothing: the body, then SetMode(previous) *)
-  Lemma Jbracket_safe_uo (b1 b2 : M unit) : kovr b1 -> J any b1 b2 ->
-    JS (fun s1 _ => povr s1 = OvrUnsafe) any (bracket start_safe_ovr b1) (bracket start_safe_ovr b2).
-  Proof.
-    intros Hk Hb s1 s2 N S Ho. rewrite !bracket_safe_run. rewrite <- (nb_ovr _ _ N), Ho. cbn [ovr_eqb]. cbv zeta.
-    specialize (Hb s1 s2 N S Logic.I). pose proof (Hk s1) as Ek.
-    destruct (b1 s1) as [[u1|?| |?] x], (b2 s2) as [[u2|?| |?] y]; try (exact Logic.I || contradiction || (exfalso; assumption)).
-    destruct Hb as (_ & Nx & Sx & Gx). cbn [snd] in Ek.
-    assert (forall s l o, pl (set_ovr (set_pl s l) o) = l) as Hp by (intros [] ? ?; reflexivity).
-    rewrite <- (nb_mode _ _ N).
-    refine (conj Logic.I (conj _ (conj _ _))).
-    - apply NB_set_pl_ovr; [exact Nx | now rewrite !lmode_setmode | intros X; discriminate].
-    - intros X. assert (forall s l o, povr (set_ovr (set_pl s l) o) = o) as Hq by (intros [] ? ?; reflexivity). rewrite Hq in X. discriminate.
-    - eapply seg_trans; [exact Gx|].
-      exists [OMode (lmode (pl s1))], [OMode (lmode (pl s1))]. rewrite !Hp, !rlog_lset. split; [reflexivity|]. split; [reflexivity|].
-      cbn [rev app]. rewrite lmode_setmode. apply ds_mode. constructor.
-  Qed.
-
-  Lemma povr_cases s : povr s <> OvrSafe -> povr s = NoOvr \/ povr s = OvrUnsafe.
-  Proof. destruct (povr s); auto. congruence. Qed.
-
-  Lemma Jsafe_wr ws : JS (HS False) any (bracket start_safe_ovr (wr ws)) (bracket start_safe_ovr (wr ws)).
-  Proof.
-    intros s1 s2 N S Hs. assert (povr s1 <> OvrSafe) as Hns by (intros X; exact (Hs X)).
-    destruct (povr_cases _ Hns) as [Hn | Hu].
-    - assert (povr s2 = NoOvr) as Hn2 by (rewrite <- (nb_ovr _ _ N); exact Hn).
-      rewrite (safe_wr_run ws s1 Hn), (safe_wr_run ws s2 Hn2), <- (nb_mode _ _ N).
-      destruct (lwrites_log (ops_of ws) (lset (pl s1) (OMode MSafe)) (ops_of_wr ws)) as [L1 M1].
-      destruct (lwrites_log (ops_of ws) (lset (pl s2) (OMode MSafe)) (ops_of_wr ws)) as [L2 M2].
-      refine (conj Logic.I (conj _ (conj _ _))).
-      + apply NB_set_pl; [exact N | now rewrite !lmode_setmode | intros X; congruence].
-      + intros X. destruct s1; cbn in *. congruence.
-      + exists (OMode (lmode (pl s1)) :: rev (ops_of ws) ++ [OMode MSafe]), (OMode (lmode (pl s1)) :: rev (ops_of ws) ++ [OMode MSafe]).
-        rewrite !pl_set_pl, !rlog_lset, L1, L2, !rlog_lset.
-        split; [cbn [app]; now rewrite <- app_assoc|]. split; [cbn [app]; now rewrite <- app_assoc|].
-        rewrite lmode_setmode. cbn [rev]. rewrite !rev_app_distr, !rev_involutive. cbn [rev app].
-        apply ds_mode. apply dsim_same_writes; [discriminate | apply ops_of_wr].
-    - exact (Jbracket_safe_uo (wr ws) (wr ws) (kovr_keeps _ (keeps_wr ws)) (J_wr ws) s1 s2 N S Hu).
-  Qed.
-
-  Lemma Jsafe_ubody g : JS (HS False) any (bracket start_safe_ovr (ubody g)) (bracket start_safe_ovr (ubody g)).
-  Proof.
-    intros s1 s2 N S Hs. assert (povr s1 <> OvrSafe) as Hns by (intros X; exact (Hs X)).
-    destruct (povr_cases _ Hns) as [Hn | Hu].
-    - assert (povr s2 = NoOvr) as Hn2 by (rewrite <- (nb_ovr _ _ N); exact Hn).
-      rewrite (safe_ubody_run g s1 Hn), (safe_ubody_run g s2 Hn2), <- (nb_mode _ _ N), <- (nb_pf _ _ N).
-      destruct (g (pf s1)) as [w|]; [|exact Logic.I].
-      destruct (lwrites_log (ops_of w) (lset (pl s1) (OMode MSafe)) (ops_of_wr w)) as [L1 M1].
-      destruct (lwrites_log (ops_of w) (lset (pl s2) (OMode MSafe)) (ops_of_wr w)) as [L2 M2].
-      refine (conj Logic.I (conj _ (conj _ _))).
-      + apply NB_set_pl; [exact N | now rewrite !lmode_setmode | intros X; congruence].
-      + intros X. destruct s1; cbn in *. congruence.
-      + exists (OMode (lmode (pl s1)) :: OMode MSafe :: rev (ops_of w) ++ [OMode MSafe]), (OMode (lmode (pl s1)) :: OMode MSafe :: rev (ops_of w) ++ [OMode MSafe]).
-        rewrite !pl_set_pl, !rlog_lset, L1, L2, !rlog_lset.
-        split; [cbn [app]; now rewrite <- app_assoc|]. split; [cbn [app]; now rewrite <- app_assoc|].
-        rewrite lmode_setmode. cbn [rev]. rewrite !rev_app_distr, !rev_involutive. cbn [rev app]. rewrite <- !app_assoc. cbn [app].
-        apply ds_mode.
-        replace (ops_of w ++ [OMode MSafe; OMode (lmode (pl s1))]) with ((ops_of w ++ [OMode MSafe]) ++ [OMode (lmode (pl s1))]) by (rewrite <- app_assoc; reflexivity).
-        eapply dsim_app; [apply dsim_same_writes; [discriminate | apply ops_of_wr]|]. apply ds_mode. constructor.
-    - refine (Jbracket_safe_uo (ubody g) (ubody g) _ (ubody_refl g) s1 s2 N S Hu).
-      apply kovr_keeps. unfold ubody. apply keeps_bracket. apply start_ok_unsafe.
-  Qed.
-
   Lemma usegw_ws x1 x2 : (x1 = x2 \/ srel x1 x2) -> usegw [WS x1] [WS x2].
   Proof.
     intros H. assert (srel x1 x2) as Hs by (destruct H as [-> | H]; [apply srel_refl | exact H]).
